@@ -1,12 +1,12 @@
 package props
 
 import (
-	"os"
 	"bytes"
 	"context"
 	"errors"
 	"fmt"
 	"io"
+	"os"
 	"strings"
 	"testing"
 	"time"
